@@ -66,6 +66,16 @@ CAUGHT.update({
  "C18-5": ("C18", "C18 retransmission counters moved on a clean path (partial batch writes through hook H5)"), "C18-6": ("C18", "C18 retransmission counters moved on a clean path (getter pollers)"),
  "C19-5": ("C19", "C19 child died: panic: index out of range / slice bounds (truncated OOB frame)"), "C19-6": ("C19", "C19 a library lock was never released: goroutines wait for it for ever (lock watch)"),
 })
+CAUGHT.update({
+ "C02-7": ("C02, C12", "C02 backlog not drained within the bound (scenarios at the sequence-number wrap)"), "C02-8": ("C02", "C02 backlog not drained within the bound after the network healed"),
+ "C04-7": ("C04", "C04 sender's view of the peer's window is not the window the peer advertised last"), "C04-8": ("C04", "C04 window in force is not the configured one"),
+ "C05-7": ("C05", "C05 hostile datagram broke a buffering bound of a live session (FEC shard sets)"), "C05-8": ("C05", "C05 hostile datagrams created more sessions than peers plus the accept backlog"),
+ "C09-7": ("C09, C14", "C09 child died: data race reported by the race detector (shared-listener-cipher part)"), "C09-8": ("C09", "C09 parity is not the Reed-Solomon code of the group's zero-padded size-prefixed payloads"),
+ "C10-7": ("C10", "C10 core handed its output callback an empty or over-MTU packet"), "C10-8": ("C10", "C10 datagram larger than the configured MTU"),
+ "C11-7": ("C11", "C11 a new peer never produced an Accept (polling accept loop)"), "C11-8": ("C11", "C11 a new peer never produced an Accept (library clock beyond 65 536 ms)"),
+ "C13-7": ("C13", "C13 accept: caller returned although nothing it waits for happened"), "C13-8": ("C13", "C13 write: callers not woken by a socket write error"),
+ "C15-7": ("C15", "C15 library goroutine still alive 10 virtual minutes after everything was closed"), "C15-8": ("C15", "C15 pooled buffer recycled twice for one acquisition (SendOOB on a closed session)"),
+})
 NOTE = {
  "C17-4": "not kept: on the tree before fix 3121c8c this change could not be told apart from the unchanged scheduler's own lateness (S19, found by the busy-worker part written for it); with S19 repaired the change no longer alters behaviour and its demonstration passes",
 }
